@@ -35,6 +35,7 @@ type c15ObfCase struct {
 	TagSeed uint64       `json:"tag_seed"` //
 	Tag     vh.Hex       `json:"tag,omitempty"`
 	Extra   []c15TagSpec `json:"extra_tags,omitempty"` // further tags obfuscated in the same case, interleaved with the primary one
+	Reveals []int        `json:"reveals,omitempty"`    // keys used, in this order, for repeated reveals on ONE slice: 0 = matching key, 1 = the other key (default 1,0,0,1,0)
 }
 
 func (c c15ObfCase) tag() []byte {
@@ -251,6 +252,72 @@ func c15ObfCheck(t vh.Fataler, rec *vh.Rec, c c15ObfCase, reps int) {
 	}
 	classes = append(classes, "late-recheck")
 
+	// phase 3: a station that holds several keys calls TryReveal repeatedly on the SAME slice (wrong
+	// key(s) first, then the right one; or the right one twice). A decoder must not modify its
+	// ciphertext argument, and every reveal of the sequence must answer exactly like a reveal of a
+	// fresh copy with that key.
+	seq := c.Reveals
+	if len(seq) == 0 {
+		seq = []int{1, 0, 0, 1, 0}
+	}
+	type answer struct {
+		pt  []byte
+		err bool
+	}
+	reveal := func(ob c15Obf, buf []byte, key [32]byte) (a answer, pan bool, what string) {
+		pan, what = c15h.Catch(func() {
+			pt, err := ob.o.TryReveal(buf, key)
+			a = answer{append([]byte{}, pt...), err != nil}
+		})
+		return
+	}
+	seenGroup := map[[2]int]bool{}
+	for _, e := range encs {
+		g := [2]int{e.ob, e.tag}
+		if seenGroup[g] {
+			continue // the first encoding of every (obfuscator, tag) pair
+		}
+		seenGroup[g] = true
+		ob := c15Obfs[e.ob]
+		keys := [2][32]byte{priv, other}
+		var ref [2]answer
+		for ki := range keys {
+			a, pan, what := reveal(ob, append([]byte{}, e.snap...), keys[ki])
+			if pan {
+				fail(ob.name + ":PANIC")
+				rec.Violation(t, "obf:"+ob.name+":decode-panic", c, "%s TryReveal panicked: %s", ob.name, what)
+				return
+			}
+			ref[ki] = a
+		}
+		work := append([]byte{}, e.snap...) // the one slice every reveal of the sequence gets
+		for step, ki := range seq {
+			ki &= 1
+			a, pan, what := reveal(ob, work, keys[ki])
+			if pan {
+				fail(ob.name + ":PANIC")
+				rec.Violation(t, "obf:"+ob.name+":decode-panic", c, "%s TryReveal panicked in a reveal sequence: %s", ob.name, what)
+				return
+			}
+			kind := []string{"matching", "other"}
+			if !bytes.Equal(work, e.snap) {
+				fail(ob.name + ":REVEAL-MUTATES")
+				if rec.Violation(t, "obf:"+ob.name+":reveal-mutates-input", c, "%s: TryReveal (step %d of the sequence %v on one slice, %s key, returned error=%v) modified its ciphertext argument, the %d-byte encoding of a %d-byte tag: %s", ob.name, step+1, seq, kind[ki], a.err, len(e.snap), len(tags[e.tag]), c15h.FirstDiff(e.snap, work)) {
+					return
+				}
+				break
+			}
+			if a.err != ref[ki].err || (!a.err && !bytes.Equal(a.pt, ref[ki].pt)) {
+				fail(ob.name + ":REVEAL-SEQUENCE")
+				if rec.Violation(t, "obf:"+ob.name+":repeated-reveal-differs", c, "%s: step %d of the reveal sequence %v on one slice (%s key) gave error=%v, %d bytes; the same reveal on a fresh copy gives error=%v, %d bytes", ob.name, step+1, seq, kind[ki], a.err, len(a.pt), ref[ki].err, len(ref[ki].pt)) {
+					return
+				}
+				break
+			}
+		}
+	}
+	classes = append(classes, "reveal-sequences")
+
 	evaluated := false
 	for oi, ob := range c15Obfs {
 		for ti, tag := range tags {
@@ -356,6 +423,7 @@ func c15ObfGen(rt *rapid.T) c15ObfCase {
 	} else {
 		c.TagSeed = c15h.Seeds().Draw(rt, "tagseed")
 	}
+	c.Reveals = rapid.SliceOfN(rapid.IntRange(0, 1), 2, 5).Draw(rt, "reveals")
 	// further tags in the same case: same length as the primary one (a recycled buffer then fits
 	// exactly) or another length
 	for i, n := 0, rapid.IntRange(0, 2).Draw(rt, "extratags"); i < n; i++ {
@@ -374,11 +442,11 @@ func c15ObfRequired() []string {
 		out = append(out, o.name+":roundtrip:len1-15", o.name+":roundtrip:len16-64", o.name+":roundtrip:len>64")
 	}
 	return append(out, "gcm:roundtrip:len0", "ctr:roundtrip:len0", "nil:roundtrip:len0",
-		"gcm:fresh-pairwise", "ctr:fresh-pairwise", "xor:fresh-pairwise", "xor:fresh-short", "gcm:wrong-key-checked", "ctr:wrong-key-checked", "several-tags", "late-recheck")
+		"gcm:fresh-pairwise", "ctr:fresh-pairwise", "xor:fresh-pairwise", "xor:fresh-short", "gcm:wrong-key-checked", "ctr:wrong-key-checked", "several-tags", "late-recheck", "reveal-sequences")
 }
 
 func TestVerif_C15_obfuscate(t *testing.T) {
-	rec := vh.NewRec("C15", "obfuscate", fmt.Sprintf("rapid: station private key (random 32 bytes; all-zero, all-ones and clamp-only patterns now and then; public key = X25519(priv, base)) x tag length (biased to 0, 1, 12, 16, 32, 48, 64, 128, 256, 1024, 4096, 8192 +-2, uniform tail) x tag bytes (explicit, 0x00.., 0xff.., random stream); plus 0-2 further tags of the same or another length; every case runs all four obfuscators, %d encodings each of the primary tag and 2 of every further tag (XOR with tags < 16 bytes: 1+ceil(128/8L)), all calls interleaved over repetitions, tags and obfuscators, and every returned slice is kept alive untouched. Oracle per obfuscator: Obfuscate errs, or every encoding reveals to its tag under the matching key right after the call AND again after all later Obfuscate calls of the case, and the returned slice is byte-identical to the copy taken right after its call (no aliasing of later encodings); GCM/CTR/XOR(>=16 bytes) encodings pairwise distinct, XOR(<16 bytes) not all identical; GCM (and CTR for tags >= 16 bytes) do not reveal the tag under an unrelated key. Non-trivial = at least one obfuscator accepted and was round-tripped; distinct by (key, tag)", c15ObfReps))
+	rec := vh.NewRec("C15", "obfuscate", fmt.Sprintf("rapid: station private key (random 32 bytes; all-zero, all-ones and clamp-only patterns now and then; public key = X25519(priv, base)) x tag length (biased to 0, 1, 12, 16, 32, 48, 64, 128, 256, 1024, 4096, 8192 +-2, uniform tail) x tag bytes (explicit, 0x00.., 0xff.., random stream); plus 0-2 further tags of the same or another length; every case runs all four obfuscators, %d encodings each of the primary tag and 2 of every further tag (XOR with tags < 16 bytes: 1+ceil(128/8L)), all calls interleaved over repetitions, tags and obfuscators, and every returned slice is kept alive untouched. Oracle per obfuscator: Obfuscate errs, or every encoding reveals to its tag under the matching key right after the call AND again after all later Obfuscate calls of the case, and the returned slice is byte-identical to the copy taken right after its call (no aliasing of later encodings); a drawn sequence of 2-5 reveals with the matching / the other key on ONE slice (as a station holding several keys does) leaves that slice unmodified after every step and answers each step like a reveal of a fresh copy; GCM/CTR/XOR(>=16 bytes) encodings pairwise distinct, XOR(<16 bytes) not all identical; GCM (and CTR for tags >= 16 bytes) do not reveal the tag under an unrelated key. Non-trivial = at least one obfuscator accepted and was round-tripped; distinct by (key, tag)", c15ObfReps))
 	defer rec.Flush()
 	rec.Require(c15ObfRequired()...)
 	if p := vh.ReplayFile(); p != "" {
@@ -414,6 +482,10 @@ func c15RevealCheck(t vh.Fataler, rec *vh.Rec, c c15RevealCase, count bool) {
 		in := append([]byte{}, c.Data...)
 		if pan, what := c15h.Catch(func() { pt, err = ob.o.TryReveal(in, key) }); pan {
 			rec.Violation(t, "obf:"+ob.name+":decode-panic", c, "%s TryReveal panicked on %d arbitrary bytes: %s", ob.name, len(c.Data), what)
+			continue
+		}
+		if !bytes.Equal(in, c.Data) {
+			rec.Violation(t, "obf:"+ob.name+":reveal-mutates-input", c, "%s TryReveal modified its %d-byte ciphertext argument (returned error=%v): %s", ob.name, len(c.Data), err != nil, c15h.FirstDiff(c.Data, in))
 			continue
 		}
 		if err != nil {
